@@ -472,6 +472,65 @@ def direct(ctx):
     ctx.sample(sub, {"to_linspace_inputs": 6, "dekad_groups": 36})
 
 
+def influence(ctx):
+    """Which samples reach the fit, decided at the kernels without a second implementation of the fit: replace one
+    valid positive observation by another positive value and look at the indices of all OTHER positions.  A
+    position outside the calibration window must have no influence (the zero share is unchanged as well); the
+    enumeration is over every pixel of PIX (two of them with nodata cells), every window [i, j) with >= 2 steps,
+    every position, ungrouped and with two interleaved / blocked groups."""
+    st, ut = _mods()
+    sub = "influence"
+    n = PIX.shape[1]
+    inside_seen = 0
+
+    def outputs(x, i, j, lab):
+        if lab is None:
+            return np.asarray(st.gammastd_yxt(x.reshape(-1, 1, n), ND, i, j)).reshape(-1, n)
+        return np.asarray(st.gammastd_grp(x, lab, int(lab.max()) + 1, ND, np.array([[i, j]] * (int(lab.max()) + 1), dtype="int16")))
+
+    labelings = [None, np.array([0, 1, 0, 1, 0, 1, 0, 1, 0], dtype="int16"), np.array([0, 0, 0, 0, 1, 1, 1, 1, 1], dtype="int16")]
+    for lab in labelings:
+        if lab is None:
+            windows = [(i, j) for i in range(n) for j in range(i + 2, n + 1)]
+            member_pos = [list(range(n))]
+        else:
+            k = int(lab.max()) + 1
+            member_pos = [np.nonzero(lab == g)[0].tolist() for g in range(k)]
+            m = min(len(mp) for mp in member_pos)
+            windows = [(i, j) for i in range(m) for j in range(i + 2, m + 1)]
+        for dtype in (("int16", "float64") if lab is None else ("int16", "float32")):
+            X = PIX.astype(dtype)
+            for (i, j) in windows:
+                base = outputs(X.copy(), i, j, lab)
+                in_window = set()
+                for mp in member_pos:
+                    in_window.update(mp[i:j])
+                for k_ in range(n):
+                    col_ok = PIX[:, k_] > 0          # only rows where the cell is a valid positive observation
+                    if not col_ok.any():
+                        continue
+                    X2 = X.copy()
+                    X2[col_ok, k_] = X2[col_ok, k_] + 17
+                    out = outputs(X2, i, j, lab)
+                    others = [q for q in range(n) if q != k_]
+                    changed = (out[:, others] != base[:, others]).any(axis=1) & col_ok
+                    ctx.count(sub, evaluations=int(col_ok.sum()), states=int(col_ok.sum()), nontrivial=int(col_ok.sum()) if k_ not in in_window else 0)
+                    if k_ in in_window:
+                        inside_seen += int(changed.sum())
+                        continue
+                    if changed.any():
+                        r = int(np.nonzero(changed)[0][0])
+                        ctx.violation(sub, {"labels": None if lab is None else lab.tolist(), "window": [i, j], "position": k_, "dtype": dtype, "pixel": r},
+                                      {"kind": "influence"},
+                                      f"{'gammastd_yxt' if lab is None else 'gammastd_grp'}[{dtype}] on {PIX[r].tolist()}"
+                                      f"{'' if lab is None else ' with groups ' + str(lab.tolist())}, calibration index window [{i},{j}): raising the observation at "
+                                      f"position {k_} (outside the window) by 17 changes the indices of other positions: {base[r].tolist()} -> {out[r].tolist()}")
+    ctx.note("influence_inside_window_changes_seen", inside_seen)
+    if inside_seen == 0:
+        ctx.set_undecided(sub, "no observation inside a window ever influenced the result: the probe is blind")
+    ctx.sample(sub, {"pixel": PIX[4].tolist(), "window": [0, 4], "perturbed_position": 4, "rule": "positions outside the window must not influence other positions"})
+
+
 def partitions_min2(n, maxk):
     out = []
     for lab in sse.set_partitions_labelings(n, maxk):
@@ -507,6 +566,7 @@ def run(ctx):
     ctx.pmap(_sequence_task, [0])
     far_dates(ctx)
     direct(ctx)
+    influence(ctx)
 
 
 def replay(sub, case, p):
@@ -518,6 +578,8 @@ def replay(sub, case, p):
         _sequence_task(0, p)
     elif case["kind"] == "tod":
         _tod_task(tuple(case["axis"]), p)
+    elif case["kind"] == "influence":
+        influence(p)
     elif case["kind"] == "grp":
         _grouped_task((tuple(case["axis"]), [tuple(case["labels"])], 4), p)
     else:
